@@ -55,3 +55,21 @@ package docx
 //@   ensures handle_released: !isnil(old(r.zipReader)) ==> closed == 1
 //@   ensures nothing_left_to_close: isnil(r.zipReader)
 //@   ensures second_close_is_a_no_op: isnil(old(r.zipReader)) ==> closed == 0 && !err
+
+// ---- C02: spans come from the document; one cell spans at most maxTableColumns columns and the cells of one row
+// together at most maxTableColumns plus one column per cell (so bookkeeping and rendering stay linear in the input) ----
+//@ func (*TableParser) parseCell results (res)
+//@   property C02
+//@   flags nosafety
+//@   ensures span_is_bounded: 1 <= res.ColSpan && res.ColSpan <= maxTableColumns && res.RowSpan >= 1
+//@   loop 0:
+//@     invariant parsed.ColSpan == entry(parsed.ColSpan) && parsed.RowSpan == entry(parsed.RowSpan)
+//@   loop 1:
+//@     invariant parsed.ColSpan == entry(parsed.ColSpan) && parsed.RowSpan == entry(parsed.RowSpan)
+//@ spec rec prefix func docxRowWidth(cells []ParsedTableCell, n int) int = n <= 0 ? 0 : docxRowWidth(cells, n - 1) + cells[n-1].ColSpan
+//@ func (*TableParser) parseRow results (res)
+//@   property C02
+//@   flags nosafety
+//@   ensures row_width_is_bounded: len(res.Cells) == len(row.Cells) && docxRowWidth(res.Cells, len(res.Cells)) <= maxTableColumns + len(res.Cells)
+//@   loop 0:
+//@     invariant len(parsed.Cells) == $i && width == docxRowWidth(parsed.Cells, len(parsed.Cells)) && 0 <= width && width <= maxTableColumns + $i
